@@ -168,3 +168,17 @@ Qed.
 
 Theorem toy_size_laws : SizeLaws TOY.
 Proof. constructor; cbn; lia. Qed.
+
+(* the scalar action is free (used by Theory/WrongCredential.v): 251 is coprime to every valid element *)
+Lemma chk_coprime : all1 1 250 (fun P => Z.gcd q P =? 1) = true.
+Proof. vm_compute. reflexivity. Qed.
+
+Theorem toy_action_free P a b : ve TOY P -> vs TOY a -> vs TOY b -> o_mul (oprf TOY) P a = o_mul (oprf TOY) P b -> a = b.
+Proof.
+  intros HP Ha Hb H. apply ve_iff in HP. apply vs_iff in Ha. apply vs_iff in Hb. cbn in H.
+  pose proof (all1_spec _ _ _ chk_coprime P ltac:(unfold q in *; lia)) as Hg. apply Z.eqb_eq in Hg.
+  assert (Hd : (q | P * (a - b))).
+  { apply Z.mod_divide; [unfold q; lia|]. rewrite Z.mul_sub_distr_l, Zminus_mod, H, Z.sub_diag. reflexivity. }
+  apply Z.gauss in Hd; [|exact Hg]. destruct Hd as [c Hc]. unfold q in *.
+  assert (c = 0) by nia. subst c. lia.
+Qed.
